@@ -227,6 +227,43 @@ func propC02(r *Run) {
 					break
 				}
 			}
+			// every host feature denotes its re-mapped residues, every guest feature its residues offset by i
+			gn := len(guest.Bytes())
+			strip := func(d []pos) []pos { return d }
+			if opn == "seq.embed" {
+				strip = func(d []pos) []pos {
+					var out []pos
+					for _, p := range d {
+						if p.x < i || p.x >= i+gn {
+							out = append(out, p)
+						}
+					}
+					return out
+				}
+			}
+			wantF := map[string]int{}
+			for _, f := range host.Features() {
+				if d := den(f.Loc); lawApplies(f.Loc, d) {
+					wantF["h|"+featKey(f)+denStr(mapDen(d, insMap(i, gn)))]++
+				}
+			}
+			for _, f := range guest.Features() {
+				if d := den(f.Loc); lawApplies(f.Loc, d) {
+					wantF["g|"+featKey(f)+denStr(mapDen(d, func(x int) (int, bool) { return x + i, true }))]++
+				}
+			}
+			for _, f := range res.Features() {
+				d := den(f.Loc)
+				wantF["h|"+featKey(f)+denStr(strip(d))]--
+				wantF["g|"+featKey(f)+denStr(d)]--
+			}
+			for k, v := range wantF {
+				if v > 0 {
+					r.fail(Failure{Oracle: opn + ": every feature denotes the residues it denoted before (host re-mapped, guest offset)", Op: line,
+						Got: fmt.Sprintf("%s missing %d", k, v)})
+					break
+				}
+			}
 		}
 		if k < 3 {
 			r.sample(fmt.Sprintf("seq.insert %s %d %s", encSeq(host), i, encSeq(guest)))
@@ -412,6 +449,30 @@ func propC03(r *Run) {
 			} else if len(res.Features()) != len(s.Features()) {
 				r.fail(Failure{Oracle: "delete: every feature survives", Op: line,
 					Got: fmt.Sprintf("%d features", len(res.Features()))})
+			}
+			wantF := map[string]int{}
+			for _, f := range s.Features() {
+				if opn == "seq.erase" && f.Key != "source" && gts.LocationWithin(f.Loc, i, i+k) {
+					continue
+				}
+				if d := den(f.Loc); lawApplies(f.Loc, d) {
+					if w := mapDen(d, delMap(i, k)); len(w) > 0 {
+						wantF[featKey(f)+denStr(w)]++
+					}
+				}
+			}
+			for _, f := range res.Features() {
+				wantF[featKey(f)+denStr(den(f.Loc))]--
+				if !coordsWithin(f.Loc, LL-k) {
+					r.fail(Failure{Oracle: opn + ": coordinates stay inside the new sequence", Op: line, Got: encLoc(f.Loc)})
+				}
+			}
+			for kk, v := range wantF {
+				if v > 0 {
+					r.fail(Failure{Oracle: opn + ": every surviving feature denotes its former residues minus the removed ones", Op: line,
+						Got: fmt.Sprintf("%s missing %d", kk, v)})
+					break
+				}
 			}
 		}
 		// Slice: forward, wrap-around, negative
@@ -829,6 +890,28 @@ func propC05(r *Run) {
 		if len(res.Features()) != len(s.Features()) {
 			r.fail(Failure{Oracle: "seq.reverse: no feature lost", Op: line, Got: itoa(len(res.Features()))})
 		}
+		want := map[string]int{}
+		for _, f := range s.Features() {
+			if d := den(f.Loc); lawApplies(f.Loc, d) && !hasBetween(f.Loc) {
+				w := make([]pos, len(d))
+				for k2, p := range d {
+					w[len(d)-1-k2] = pos{LL - 1 - p.x, p.rev}
+				}
+				if gts.CheckStrand(f.Loc) != gts.StrandBoth && !hasNestedCompl(f.Loc) {
+					want[featKey(f)+denStr(w)]++
+				}
+			}
+		}
+		for _, f := range res.Features() {
+			want[featKey(f)+denStr(den(f.Loc))]--
+		}
+		for kk, v := range want {
+			if v > 0 {
+				r.fail(Failure{Oracle: "seq.reverse: every feature denotes the mirrored residues in mirrored order", Op: line,
+					Got: fmt.Sprintf("%s missing %d", kk, v)})
+				break
+			}
+		}
 	}
 }
 
@@ -1063,4 +1146,11 @@ func containsKind(l gts.Location) bool {
 		}
 	}
 	return hasR && hasP
+}
+
+// lawApplies: the per-feature denotation law is checked at sequence level for features with a
+// duplicate-free, non-empty denotation, no ambiguous leaf and no shape on which known finding
+// K2 can fire (those have their own clauses at location level).
+func lawApplies(l gts.Location, d []pos) bool {
+	return len(d) > 0 && nodup(d) && !hasAmbiguous(l) && !touchesK2(l)
 }
